@@ -170,10 +170,18 @@ jobs:
       max-parallel: 2
       matrix:
         os: [a, b]
+        cfg:
+          - k: v
+            l: [w]
+            m: ['${{ fromJSON(github.sha) }}', z]
         include:
           - os: c
+            cfg:
+              k: x
         exclude:
           - os: a
+            cfg:
+              k: v
     container:
       image: i
       credentials:
